@@ -342,11 +342,19 @@ class Cluster:
         return self.insts[dst].receive(data)
 
     def crash(self, name):
+        """the process is gone: what was on its way to it is lost, connecting to it fails from now on (the sender's
+        `_tcp_send` reports an error and the change goes to the peer's backlog); what it had already handed to the
+        network is still delivered."""
         self.insts[name].alive = False
+        self.dead_links = getattr(self, 'dead_links', set())
         for (s, d) in list(self.net.links):
-            if d == name or (s == name and not os.environ.get("KEEP_FROM")):
+            if d == name:
                 self.net.links[(s, d)] = []
                 self.net.meta[(s, d)] = []
+        for s in self.names:
+            if s != name:
+                self.net.down.add((s, name))
+                self.dead_links.add((s, name))
 
     def restart(self, name):
         old = self.insts[name]
@@ -359,6 +367,10 @@ class Cluster:
             if d == name:
                 self.net.links[(s, d)] = []
                 self.net.meta[(s, d)] = []
+        for s in self.names:                      # the new process listens again
+            if (s, name) in getattr(self, 'dead_links', set()):
+                self.net.down.discard((s, name))
+                self.dead_links.discard((s, name))
         self.gens[name] += 1
         self.insts[name] = self._mk(name, self.gens[name])
 
@@ -369,10 +381,13 @@ class Cluster:
             for i in self.live():
                 if i.tcp is None:
                     continue
-                if i.queue_len() or any(i.stash_len(p) for p in self.names if p != i.name):
+                live_peers = [p for p in self.names if p != i.name and self.insts[p].alive]
+                if live_peers and (i.queue_len() or any(i.stash_len(p) for p in live_peers)):
                     busy = True
-                while i.queue_len():
-                    i.outgoing_pass()
+                n_pass = 0
+                while i.queue_len() and n_pass < 60:       # (the queue is not drained while every peer is unreachable and
+                    i.outgoing_pass()                      #  waiting for its next RESYNC attempt: bounded)
+                    n_pass += 1
                 i.outgoing_pass()
             for (s, d), q in list(self.net.links.items()):
                 while q:
